@@ -9,6 +9,7 @@
 -/
 import CSD.Lemmas.RGSelect2
 import CSD.Lemmas.RGSelect0b
+import CSD.Lemmas.RGImage
 import CSD.Generated.Bodies
 import CSD.Model.SourceText
 import CSD.Lemmas.RG
@@ -65,6 +66,18 @@ theorem rg_access_exact (words : List Nat) (i : Nat) (h : i < 32 * words.length)
   rw [List.getD_eq_getElem?_getD, List.getElem?_eq_getElem hk]
   rfl
 
+/-- **A BitSequenceRG survives save/load unchanged** (byte-level models of `save`, `load` and of the object
+the constructor builds with `BuildRank`): for every bit vector of fewer than `2^32 − 64` bits and every
+sampling factor ≥ 1, `load` applied to the saved bytes (followed by anything) returns the same words and the
+same counters and consumes exactly the image — so every answer is the same after save/load. -/
+theorem rg_image_reloads (words : List Nat) (n factor : Nat) (hn : n + 64 < 2 ^ 32) (hf : 0 < factor) (hf2 : factor < 2 ^ 64)
+    (hw : ∀ w ∈ words, w < 2 ^ 32) (rest : List UInt8) :
+    RG.loadImg (RG.saveImg (RG.build words n factor) ++ rest) = some (RG.build words n factor, rest) :=
+  RG.build_reloads words n factor hn hf hf2 hw rest
+
+/-- Non-vacuity: the 40-bit vector with words 5, 11 at factor 1 — two data words, two counters (0 and 2). -/
+example : (RG.build [5, 11] 40 1).data = [5, 11] ∧ (RG.build [5, 11] 40 1).Rs = [0, 2] := by decide
+
 /-- **`select0` of BitSequenceRG is exact** (the model mirrors the C++ routine; zeros before super-block
 `mid` are `mid·factor·W − Rs[mid]`): for `1 ≤ x ≤ n − ones` the answer `p < n` is the position of the `x`-th
 zero — bit `p` is clear and exactly `x − 1` zeros precede it — every array read in bounds, and the final
@@ -101,6 +114,10 @@ obligation even if no generated input tells the behaviours apart. -/
 theorem models_match_source_text :
     Generated.body_RG_rank1 = SourceText.body_RG_rank1 ∧
     Generated.body_RG_select1 = SourceText.body_RG_select1 ∧
-    Generated.body_RG_select0 = SourceText.body_RG_select0 := ⟨rfl, rfl, rfl⟩
+    Generated.body_RG_select0 = SourceText.body_RG_select0 ∧
+    Generated.body_RG_save = SourceText.body_RG_save ∧
+    Generated.body_RG_load = SourceText.body_RG_load ∧
+    Generated.body_RG_BuildRank = SourceText.body_RG_BuildRank ∧
+    Generated.body_RG_BuildRankSub = SourceText.body_RG_BuildRankSub := ⟨rfl, rfl, rfl, rfl, rfl, rfl, rfl⟩
 
 end CSD.Props.C19
